@@ -187,7 +187,8 @@ fn streams(ctx: &Ctx, t: &mut Tape<'_>, r: &mut Report) -> CheckResult {
     let f = &suite.streams[t.idx(suite.streams.len())];
     let key = gen_key(t, suite);
     let bs = suite.info.bs;
-    let iv = gen_iv(t, bs);
+    let kc = (suite.keyed)(&key);
+    let iv = gen_stream_iv(t, f.kind(), bs, kc.as_ref(), suite.info.has_dec);
     let len = gen_msg_len(t, bs, 8);
     let m = tape::gen_bytes(t, len);
     let c1 = gen_cuts(t, len, bs, 6);
